@@ -99,6 +99,47 @@ pub fn run_c17(tier: Tier) -> i32 {
         n_perm += out.len();
         seqs.extend(out);
     }
+    // long lists: more entries than there are kinds (a kind may first appear after any number of
+    // repetitions of others)
+    let n_before_long = seqs.len();
+    for a in Kind::ALL {
+        for b in Kind::ALL {
+            for reps in [4usize, 5, 8, 9, 16, 17, 33] {
+                let mut head: Vec<Kind> = vec![];
+                for _ in 0..reps {
+                    head.push(a);
+                    head.push(b);
+                }
+                for c in Kind::ALL {
+                    let mut t = head.clone();
+                    t.push(c);
+                    seqs.push(t.clone());
+                    for d in Kind::ALL {
+                        if reps <= 5 {
+                            let mut u = t.clone();
+                            u.push(d);
+                            seqs.push(u);
+                        }
+                    }
+                }
+            }
+        }
+    }
+    // every subset in canonical order and in reverse, every element repeated 1..=4 times
+    for mask in 0u32..256 {
+        let items: Vec<Kind> = (0..8).filter(|i| mask & (1 << i) != 0).map(|i| Kind::ALL[i]).collect();
+        for reps in 1..=4usize {
+            let fwd: Vec<Kind> = items.iter().flat_map(|k| std::iter::repeat(*k).take(reps)).collect();
+            let mut rev = fwd.clone();
+            rev.reverse();
+            // interleaved repetition: the whole set, reps times over
+            let cyc: Vec<Kind> = (0..reps).flat_map(|_| items.iter().copied()).collect();
+            seqs.push(fwd);
+            seqs.push(rev);
+            seqs.push(cyc);
+        }
+    }
+    let n_long = seqs.len() - n_before_long;
     let mut phrases: HashSet<String> = HashSet::new();
     let mut sets: HashSet<BTreeSet<Kind>> = HashSet::new();
     for s in &seqs {
@@ -128,9 +169,10 @@ pub fn run_c17(tier: Tier) -> i32 {
     rec.add_signatures(&h, &h);
     rec.set_extra("sequences_up_to_length_5", json!(n_bounded));
     rec.set_extra("permutations_of_all_256_subsets", json!(n_perm));
+    rec.set_extra("long_lists_(9_to_67_entries_and_repeated_subsets)", json!(n_long));
     rec.finish(
         "model_checking",
-        "complete enumeration: every sequence of value kinds of length 0..5 with repetitions (8^0+…+8^5) and every permutation of every one of the 256 subsets; states = distinct kind sets, transitions = sequences evaluated; each evaluated on the real value_kinds_description_json and compared with an independent specification that is a function of the set only (so equality implies order- and multiplicity-independence). distinct = distinct phrases produced.",
+        "complete enumeration: every sequence of value kinds of length 0..5 with repetitions (8^0+…+8^5) every permutation of every one of the 256 subsets, and long lists (9–67 entries: every pair of kinds repeated 4–33 times followed by every kind / pair of kinds; every subset forwards, backwards and cyclically with 1–4 repetitions); states = distinct kind sets, transitions = sequences evaluated; each evaluated on the real value_kinds_description_json and compared with an independent specification that is a function of the set only (so equality implies order- and multiplicity-independence). distinct = distinct phrases produced.",
         &["the specification function kinds_phrase_spec (mc-core/src/pure.rs) states the documented phrase rules"],
     )
 }
@@ -222,9 +264,13 @@ fn words(alpha: &[char], max_len: usize) -> Vec<String> {
 
 pub fn run_c18(tier: Tier) -> i32 {
     let rec = Recorder::new("C18", tier);
+    crate::explore::silence_panics();
     let evals = AtomicUsize::new(0);
     let check = |received: &str, accepted: &[&str]| {
-        let got = deserr::errors::helpers::did_you_mean(received, accepted);
+        let got = match std::panic::catch_unwind(|| deserr::errors::helpers::did_you_mean(received, accepted)) {
+            Ok(g) => g,
+            Err(_) => "<panicked>".to_string(),
+        };
         let want = did_you_mean_spec(received, accepted);
         evals.fetch_add(1, Ordering::Relaxed);
         if got != want {
@@ -299,6 +345,23 @@ pub fn run_c18(tier: Tier) -> i32 {
         }
     }
     states += padded;
+    // (b') pairs over {a, 日, 😀}^≤4 (3- and 4-byte characters: one edit moves the byte length by
+    // up to 4), bare and behind a common prefix
+    let w4 = words(&['a', '日', '😀'], 4);
+    let mut wide = 0u64;
+    for pad in [0usize, 5, 10] {
+        let prefix = "q".repeat(pad);
+        for x in &w4 {
+            let r = format!("{prefix}{x}");
+            for y in &w4 {
+                let c = format!("{prefix}{y}");
+                let g = check(&r, &[c.as_str()]);
+                outcomes.insert(hash64(&("wide", pad, g.is_empty(), r.len(), c.len())));
+                wide += 1;
+            }
+        }
+    }
+    states += wide;
     // (c) around every budget threshold: candidates at every exact distance 0..7
     let mut threshold_cases = 0u64;
     for len in [3usize, 4, 7, 8, 12, 13, 17, 18, 24, 25, 30, 40] {
@@ -357,6 +420,28 @@ pub fn run_c18(tier: Tier) -> i32 {
         }
     }
     states += threshold_cases;
+    // (c') long received strings whose multi-byte characters straddle every byte offset (a cut or
+    // buffer at 64 / 128 / 256 bytes would split one)
+    let mut long_cases = 0u64;
+    for len in [62usize, 63, 64, 65, 66, 126, 127, 128, 129, 130, 254, 255, 256, 257, 258, 1000] {
+        for pre in 0..4 {
+            for unit in ["é", "😀", "日"] {
+                let mut r = "x".repeat(pre);
+                while r.len() < len {
+                    r.push_str(unit);
+                }
+                let mut near = r.clone();
+                near.push('y');
+                let far = "z".repeat(len);
+                for acc in [vec![near.as_str()], vec![far.as_str(), near.as_str()], vec![r.as_str()], vec![]] {
+                    let g = check(&r, &acc);
+                    outcomes.insert(hash64(&("long", len, g.is_empty())));
+                    long_cases += 1;
+                }
+            }
+        }
+    }
+    states += long_cases;
     // (d) all candidate lists of length 0..3 over a pool, for a set of received strings
     let pool = ["abcd", "abdc", "abcx", "abc", "abcde", "xbcd", "dcba", "abcdabcd", "abcdabdc", "", "abcd", "aXcd"];
     let recvs: Vec<String> = {
@@ -398,7 +483,7 @@ pub fn run_c18(tier: Tier) -> i32 {
     rec.set_extra("alphabet_pairs_length", json!(l1));
     rec.finish(
         "model_checking",
-        "complete enumeration of four finite spaces: (a) every (received, single candidate) pair over {a,b,c}^≤6 (quick) / ^≤7 (thorough); (a') every pair over {a,b,c}^≤4 behind a common prefix of 5 / 10 / 15 / 22 bytes, so that every distance 0..4 is met in every budget class 2..5 (transposition-with-insertion shapes distinguish true Damerau–Levenshtein from optimal string alignment only from budget 2 on); (b) every pair over {a,é}^≤7 (byte length ≠ char length, crossing the 3/4, 7/8 and 12/13 byte thresholds); (c) for byte lengths 3,4,7,8,12,13,17,18,24,25,30,40 (ascii and multi-byte bases) candidates at every distance 0..7 built by substitution / deletion / insertion / transposition, singly and in all ordered pairs; (d) every candidate list of length 0..3 over a 12-string pool (ties, exact matches, empty string, duplicates) for 60 received strings. Oracle: independent unrestricted Damerau–Levenshtein over chars, budget by byte length, earliest minimal candidate; output empty or exactly `did you mean `X`? `.",
+        "complete enumeration of four finite spaces: (a) every (received, single candidate) pair over {a,b,c}^≤6 (quick) / ^≤7 (thorough); (a') every pair over {a,b,c}^≤4 behind a common prefix of 5 / 10 / 15 / 22 bytes, so that every distance 0..4 is met in every budget class 2..5 (transposition-with-insertion shapes distinguish true Damerau–Levenshtein from optimal string alignment only from budget 2 on); (b) every pair over {a,é}^≤7 (byte length ≠ char length, crossing the 3/4, 7/8 and 12/13 byte thresholds); (c) for byte lengths 3,4,7,8,12,13,17,18,24,25,30,40 (ascii and multi-byte bases) candidates at every distance 0..7 built by substitution / deletion / insertion / transposition, singly and in all ordered pairs; (b') every pair over {a, 日, 😀}^≤4 bare and behind 5 / 10 ASCII bytes; (c') received strings of 62…258 and 1000 bytes built from 2-, 3- and 4-byte characters behind 0–3 ASCII bytes, so that a character straddles every byte offset; (d) every candidate list of length 0..3 over a 12-string pool (ties, exact matches, empty string, duplicates) for 60 received strings. Oracle: independent unrestricted Damerau–Levenshtein over chars, budget by byte length, earliest minimal candidate; output empty or exactly `did you mean `X`? `.",
         &["the reference distance is the textbook unrestricted Damerau–Levenshtein (self-checked on known values at start-up)"],
     )
 }
@@ -515,6 +600,13 @@ pub fn run_c19(tier: Tier) -> i32 {
             }
         }
     }
+    // very long paths (deeper than any document serde_json parses: locations can also be built by hand)
+    for len in [100usize, 127, 128, 129, 130, 255, 256, 257, 1000, 5000] {
+        for phase in 0..4 {
+            let steps: Vec<Step> = (0..len).map(|i| alphabet[(i * 7 + phase + i / 5) % alphabet.len()].clone()).collect();
+            c19_build(&steps, &mut |ptr| check(ptr, &steps));
+        }
+    }
     drop(check);
     let n = n.get();
     rec.add_counts(n, n, n);
@@ -524,7 +616,7 @@ pub fn run_c19(tier: Tier) -> i32 {
     rec.sample(json!({"path": ".a[0].b", "to_owned": format!("{:?}", deserr::ValuePointerRef::Origin.push_key("a").push_index(0).push_key("b").to_owned().path)}));
     rec.finish(
         "model_checking",
-        "complete enumeration of every path of ≤ 6 (quick) / ≤ 9 (thorough) steps over {key a, key b, index 0, index 1}, built as real ValuePointerRef chains by recursion, every path of ≤ 4 steps over {empty key, key `a.b[0]`, key `é`, index usize::MAX}, plus the first 2000 paths of each of the next six lengths over a second alphabet. Oracle: to_owned().path lists exactly the pushed steps in order; is_origin ⇔ no step; first_field / last_field = first / last key step or None.",
+        "complete enumeration of every path of ≤ 6 (quick) / ≤ 9 (thorough) steps over {key a, key b, index 0, index 1}, built as real ValuePointerRef chains by recursion, every path of ≤ 4 steps over {empty key, key `a.b[0]`, key `é`, index usize::MAX}, plus the first 2000 paths of each of the next six lengths over a second alphabet and four paths of each length 100, 127–130, 255–257, 1000, 5000. Oracle: to_owned().path lists exactly the pushed steps in order; is_origin ⇔ no step; first_field / last_field = first / last key step or None.",
         &["ValuePointerComponent is not exported by deserr, so the owned path is compared through its Debug rendering"],
     )
 }
@@ -805,6 +897,30 @@ pub fn run_c13(tier: Tier) -> i32 {
                     replay: json!({"kind": "c13-large", "n": n}),
                 });
             }
+        }
+    }
+    // documents nested deeper than serde_json's *parser* accepts: a Value can hold them all the same
+    for depth in [127usize, 128, 129, 130, 200, 1000] {
+        for obj in [false, true] {
+            let mut v = serde_json::json!(1);
+            for _ in 0..depth {
+                v = if obj { serde_json::json!({ "a": v }) } else { serde_json::json!([v]) };
+            }
+            begin(&Script::keep_going());
+            let back = std::panic::catch_unwind(|| deserr::deserialize::<serde_json::Value, serde_json::Value, RecA>(v.clone()));
+            let _ = end();
+            let rt = serde_json::Value::from(v.clone().into_value());
+            large += 1;
+            let ok = matches!(&back, Ok(Ok(b)) if *b == v) && rt == v;
+            if !ok {
+                rec.violation(Violation {
+                    property: "C13".into(),
+                    subject: "deep document".into(),
+                    message: format!("a document of {depth} nested {} does not round-trip through the Deserr impl for Value / From<Value>: {}", if obj { "objects" } else { "arrays" }, match &back { Ok(Ok(_)) => "changed", Ok(Err(_)) => "failed", Err(_) => "panicked" }),
+                    replay: json!({"kind": "c13-deep", "depth": depth, "objects": obj}),
+                });
+            }
+            // dropping a 1000-deep Value recursively is fine on the main thread
         }
     }
     rec.set_extra("large_documents", json!(large));
